@@ -313,6 +313,7 @@ class Check(core.PropertyCheck):
     REQUIRED_WITNESSES = KINDS + ("multi", "damage", "pristine_load", "damaged_load", "damaged_fre", "damaged_clean",
                                   "prefix_then_fre")
     REQUIRED_ACTIONS = ("Add", "Damage", "Load")
+    LEVEL_NOTE = ("format not modelled: the TLA+ module is a container/damage-class ADT of the file and the reader's exception mapping; field values inside a class are sampled by the concretiser (seeded), not enumerated; the typed-netstring wire format lives in the harness's reference codec")
     ASSUMPTIONS = (
         "`identical state` is decided on canon(get_state()) plus an attribute-level snapshot taken by the harness "
         "(tuple == list, dict order ignored, int/float/bool/bytes/str/None distinct, nan == nan); states are interned "
@@ -336,7 +337,7 @@ class Check(core.PropertyCheck):
             return base | {"MaxFlows": 2, "MaxDamage": 1}
         if tier == "sim":
             return base | {"MaxFlows": 3, "MaxDamage": 2}
-        return base | {"MaxFlows": 2, "MaxDamage": 2}
+        return base | {"Kinds": frozenset(QUICK_KINDS), "MaxFlows": 2, "MaxDamage": 2}  # exhaustive, not dumped
 
     def model_runs(self, ctx):
         if ctx.quick:
